@@ -282,7 +282,58 @@ func combinedModule(all []yangval.Spec) map[string]string {
 	return mods
 }
 
+// foreignTypedefIdentityref: a leaf of module b whose type is a typedef of module a that wraps an
+// identityref: identity names are spelled relative to the module of the LEAF (own module
+// unprefixed, the other module with its name as prefix).
+func foreignTypedefIdentityref() []engine.Violation {
+	mods := map[string]string{
+		"a": "module a { namespace \"urn:a\"; prefix a; identity root; identity mid { base root; } identity leaf1 { base mid; } identity other; typedef idt { type identityref { base root; } } typedef idt2 { type idt; } }",
+		"b": "module b { namespace \"urn:b\"; prefix b; import a { prefix a; } identity ext { base a:mid; } identity ext2 { base ext; } identity unrelated; leaf l { type a:idt; } leaf l2 { type a:idt2; } container c { leaf l3 { type a:idt; } } }",
+	}
+	r := gen.Compile(mods, gen.Options{})
+	if !r.OK() {
+		return []engine.Violation{{Key: "type-does-not-compile:identityref-through-foreign-typedef", Detail: fmt.Sprint(r.Err, r.Panic)}}
+	}
+	var vs []engine.Violation
+	want := map[string]bool{"ext": true, "ext2": true, "a:mid": true, "a:leaf1": true,
+		"mid": false, "leaf1": false, "other": false, "a:other": false, "unrelated": false, "a:root": false, "root": false, "a:ext": false, "": false, "a:": false}
+	leaves := map[string]schema.Node{"l": r.MS.Child("l"), "l2": r.MS.Child("l2")}
+	if c := r.MS.Child("c"); c != nil {
+		leaves["c/l3"] = c.Child("l3")
+	}
+	for name, n := range leaves {
+		if n == nil {
+			vs = append(vs, engine.Violation{Key: "leaf-missing:identityref-through-foreign-typedef", Witness: name})
+			continue
+		}
+		for v, ok := range want {
+			var err error
+			var p any
+			func() {
+				defer func() { p = recover() }()
+				err = n.Type().Validate(valCtx{}, []string{name, v}, v)
+			}()
+			w := fmt.Sprintf("leaf %s of module b, type typedef of module a wrapping identityref { base root }, value %q", name, v)
+			switch {
+			case p != nil:
+				vs = append(vs, engine.Violation{Key: "panic:identityref-through-foreign-typedef", Witness: w, Detail: fmt.Sprint(p)})
+			case ok && err != nil:
+				vs = append(vs, engine.Violation{Key: "rejects-member:identityref-through-foreign-typedef", Witness: w, Detail: err.Error()})
+			case !ok && err == nil:
+				vs = append(vs, engine.Violation{Key: "accepts-non-member:identityref-through-foreign-typedef", Witness: w, Detail: "Validate accepts it"})
+			}
+		}
+	}
+	return vs
+}
+
 func run(c *engine.Ctx) {
+	if c.Shard == 0 && c.Case("identityref-through-foreign-typedef") {
+		c.Add("states", 42)
+		for _, v := range foreignTypedefIdentityref() {
+			c.Report(v)
+		}
+	}
 	all := specs(c.Quick())
 	comb := gen.Compile(combinedModule(all), gen.Options{})
 	if !comb.OK() {
